@@ -4,7 +4,7 @@
    hook-exported key sets of the two decoder tables). *)
 From V.lib Require Import Base.
 From V.c04 Require Import C04Model C04AsmModel C04ContainerProofs.
-From V.c03 Require Import C03Model C03Spec C03Registry C03Proofs C03CanonProofs C03LeafModel C03LeafProofs C03LeafBoxProofs C03LeafInstProofs C03StsdProofs C03VseProofs C03LeafTruncProofs C03LeafEncProofs C03DelegateProofs C03DelegateExtProofs C03FactsDefs C03Facts C03ClassProofs C03SencPassModel C03SencPassProofs C03EncHistModel C03EncHistProofs C03BodyFnProofs.
+From V.c03 Require Import C03Model C03Spec C03Registry C03Proofs C03CanonProofs C03LeafModel C03LeafProofs C03LeafBoxProofs C03LeafInstProofs C03StsdProofs C03VseProofs C03LeafTruncProofs C03LeafEncProofs C03DelegateProofs C03DelegateExtProofs C03FactsDefs C03Facts C03ClassProofs C03SencPassModel C03SencPassProofs C03EncHistModel C03EncHistProofs C03BodyFnProofs C03PfxModel C03PfxProofs C03PfxInstProofs.
 From V.c02 Require C02AggModel C02AggExamples C02AggFragProofs C02AggFileProofs C02AggSencModel C02AggSencProofs.
 Open Scope N_scope.
 
@@ -321,16 +321,16 @@ Print Assumptions C03_sprog_embeds.
 (* EVERY registered box type (c03_decoder_facts is regenerated from the sources, keys_decoders from the running library, on every
    run) has a pair that is
      - delegating (shape checked by the extractor) with a position-relative SR decoder: C03_delegating_pair_agree applies; or
-       delegating and named: DecodeVisualSampleEntry (C03_vse_pair_agree_canonical) / the explored list
-       c03_delegating_nonrelative_explored = esds evte meta sgpd stpp trep wvtt;
+       delegating and named: DecodeVisualSampleEntry (C03_vse_pair_agree_canonical), DecodeTrep, DecodeWvtt (their pair theorems
+       below) / the explored list c03_delegating_nonrelative_explored = esds evte meta sgpd stpp;
      - a container twin (same text around DecodeContainerChildren / ...SR; KCont of C03_decode_agree_canonical), also when its SR
        decoder returns sr.AccError() instead of nil (edts sinf stbl: C03_twin_accerr_canonical);
      - moov / moof: the reader path reads the body and runs the text of the SR decoder on it, KContBody with the extracted flag;
      - a pure twin (neither decoder touches its reader, same text: emeb, vtte), a raw-body pair (readBoxBody / ReadBytes(payloadLen)
        + AccError into the same box: free, skip, cdat, styp; the opaque leaf std_r / std_sr of C03_std_canon_leaf) or a body-function
        pair (the same pure function of the body bytes on both paths: avcC hvcC av1C dac3 dec3 mdat; C03_bodyfn_pair_agree);
-     - separately written and named: c03_separate_proved = trun senc mdat stsd mfhd tfdt (their pair theorems above) or
-       c03_separate_explored = audio sample entry (mp4a enca ac-3 ec-3), dref, vttc.
+     - separately written and named: c03_separate_proved = trun senc stsd mfhd tfdt dref, audio sample entry (their pair theorems) or
+       c03_separate_explored = vttc.
    A reader-path decoder that is rewritten by hand leaves its class and breaks this theorem until it gets a pair model. *)
 Theorem C03_all_pairs_classified :
   forall k, In k keys_decoders ->
@@ -513,6 +513,67 @@ Proof.
 Qed.
 Print Assumptions C03_enc_prelude_agree.
 
+(* ---- more pairs modelled on both sides (C03PfxModel.v): payload = fixed bytes, then child boxes ----
+   dref (DecodeDref: binary.Read x2 + DecodeContainerChildren on r + EntryCount test / DecodeDrefSR) and trep (DecodeTrep: readBoxBody, then
+   DecodeTrepSR on a private reader / DecodeTrepSR): on every canonical payload - version/flags word, second word (the number of
+   children for dref, any TrackID for trep), canonical children decoded by ANY leaf pair satisfying the leaf contract -, wherever it
+   sits and whatever follows, both decoders accept with the same value, and Size() = 8 + len payload *)
+Theorem C03_counted_pairs_agree_canonical :
+  (forall ld, leaf_ok ld -> forall nm vf kids,
+     (vf < 4294967296)%N -> Forall (cwf ld) kids -> (lenN (be4 vf ++ be4 (lenN kids) ++ cencs kids) < 4294967288)%N ->
+     forall pre post cst cst2 fuel,
+     (zlen (pre ++ (be4 vf ++ be4 (lenN kids) ++ cencs kids) ++ post) < two63)%Z ->
+     (zlen (pre ++ (be4 vf ++ be4 (lenN kids) ++ cencs kids) ++ post) - zlen pre < Z.of_nat fuel)%Z ->
+     let v := mkStsd (vf / 16777216) (N.land vf flags_mask) (lenN kids) (map erase kids) in
+     let h := mkH nm (8 + lenN (be4 vf ++ be4 (lenN kids) ++ cencs kids)) 8 in
+     fst (dref_sr ld fuel h 0 (mkS (mkR (pre ++ (be4 vf ++ be4 (lenN kids) ++ cencs kids) ++ post) (zlen pre) false) cst)) = Ok v /\
+     fst (dref_r ld fuel h 0 (mkI (pre ++ (be4 vf ++ be4 (lenN kids) ++ cencs kids) ++ post) (lenN pre) cst2)) = Ok v /\
+     stsd_size v = (8 + lenN (be4 vf ++ be4 (lenN kids) ++ cencs kids))%N) /\
+  (forall ld, leaf_ok ld -> forall nm vf tid kids,
+     (vf < 4294967296)%N -> (tid < 4294967296)%N -> Forall (cwf ld) kids -> (lenN (be4 vf ++ be4 tid ++ cencs kids) < 4294967288)%N ->
+     forall pre post cst cst2 fuel,
+     (zlen (pre ++ (be4 vf ++ be4 tid ++ cencs kids) ++ post) < two63)%Z ->
+     (zlen (pre ++ (be4 vf ++ be4 tid ++ cencs kids) ++ post) - zlen pre < Z.of_nat fuel)%Z ->
+     let v := mkStsd (vf / 16777216) (N.land vf flags_mask) tid (map erase kids) in
+     let h := mkH nm (8 + lenN (be4 vf ++ be4 tid ++ cencs kids)) 8 in
+     fst (trep_sr ld fuel h 0 (mkS (mkR (pre ++ (be4 vf ++ be4 tid ++ cencs kids) ++ post) (zlen pre) false) cst)) = Ok v /\
+     fst (trep_r ld fuel h 0 (mkI (pre ++ (be4 vf ++ be4 tid ++ cencs kids) ++ post) (lenN pre) cst2)) = Ok v /\
+     stsd_size v = (8 + lenN (be4 vf ++ be4 tid ++ cencs kids))%N).
+Proof. exact (conj dref_pair_agree_canonical trep_pair_agree_canonical). Qed.
+Print Assumptions C03_counted_pairs_agree_canonical.
+
+(* wvtt (DecodeWvtt: readBoxBody + private reader / DecodeWvttSR: 8 fixed bytes, `for pos < endPos` DecodeBoxSR) and the audio sample entries
+   mp4a enca ac-3 ec-3 (DecodeAudioSampleEntry: readBoxBody, 28 fixed bytes on a private reader, then the READER-path DecodeBox on the rest
+   until io.EOF / DecodeAudioSampleEntrySR: 28 fixed bytes, `for pos < lastPos` DecodeBoxSR): on every canonical payload (ANY fixed bytes
+   of that length, canonical children) both decoders accept with the same fields and children, Size() = 8 + len payload *)
+Theorem C03_entry_pairs_agree_canonical :
+  (forall ld, leaf_ok ld -> forall nm fx kids,
+     length fx = 8%nat -> Forall (cwf ld) kids -> (lenN (fx ++ cencs kids) < 4294967288)%N ->
+     forall pre post cst cst2 fuel,
+     (zlen (pre ++ (fx ++ cencs kids) ++ post) < two63)%Z -> (zlen ((fx ++ cencs kids) ++ post) + 1 < Z.of_nat fuel)%Z ->
+     exists dri,
+       fst (wvtt_sr ld fuel (mkH nm (8 + lenN (fx ++ cencs kids)) 8) 0 (mkS (mkR (pre ++ (fx ++ cencs kids) ++ post) (zlen pre) false) cst)) = Ok (dri, map erase kids) /\
+       fst (wvtt_r ld fuel (mkH nm (8 + lenN (fx ++ cencs kids)) 8) 0 (mkI (pre ++ (fx ++ cencs kids) ++ post) (lenN pre) cst2)) = Ok (dri, map erase kids) /\
+       wvtt_size (dri, map erase kids) = (8 + lenN (fx ++ cencs kids))%N) /\
+  (forall ld, leaf_ok ld -> forall nm fx kids,
+     length fx = 28%nat -> Forall (cwf ld) kids -> (lenN (fx ++ cencs kids) < 4294967288)%N ->
+     forall pre post cst cst2 fuel,
+     (zlen (pre ++ (fx ++ cencs kids) ++ post) < two63)%Z -> (zlen ((fx ++ cencs kids) ++ post) + 1 < Z.of_nat fuel)%Z ->
+     exists a,
+       fst (ase_sr ld fuel (mkH nm (8 + lenN (fx ++ cencs kids)) 8) 0 (mkS (mkR (pre ++ (fx ++ cencs kids) ++ post) (zlen pre) false) cst)) = Ok (a, map erase kids) /\
+       fst (ase_r ld fuel (mkH nm (8 + lenN (fx ++ cencs kids)) 8) 0 (mkI (pre ++ (fx ++ cencs kids) ++ post) (lenN pre) cst2)) = Ok (a, map erase kids) /\
+       ase_size (a, map erase kids) = (8 + lenN (fx ++ cencs kids))%N).
+Proof. exact (conj wvtt_pair_agree_canonical ase_pair_agree_canonical). Qed.
+Print Assumptions C03_entry_pairs_agree_canonical.
+
+(* the encoder pairs DrefBox, TrepBox, WvttBox, AudioSampleEntryBox: header, fixed bytes, every child - Encode = EncodeSW given children
+   that agree, and the box is then an agreeing leaf of C03_box_encode_agree / C03_encode_agree *)
+Theorem C03_pfx_enc_agree : forall nm size fixed kids, agree_list kids = true ->
+  pfx_enc_w nm size fixed kids = pfx_enc_sw nm size fixed kids /\
+  agree (ELeaf (pfx_enc_w nm size fixed kids) (pfx_enc_sw nm size fixed kids)) = true.
+Proof. exact (fun nm s f k H => conj (pfx_enc_agree nm s f k H) (pfx_leaf_agrees nm s f k H)). Qed.
+Print Assumptions C03_pfx_enc_agree.
+
 (* ---- non-vacuity ---- *)
 Example ex_tree : ebox :=
   ECont [109;111;111;102]%N 24 [ECont [116;114;97;102]%N 8 []; ELeaf (Ok [0;0;0;8;102;114;101;101]%N) (Ok [0;0;0;8;102;114;101;101]%N)].
@@ -683,4 +744,14 @@ Proof. reflexivity. Qed.
 Example ex_hist_run :
   map (fun o => match o with C02AggModel.OutBytes b => lenN (concat b) | C02AggModel.OutSize n => n | _ => 0 end)
       (fst (run_hhist hfile_agg C02AggExamples.ex_file [HEncode; HSize; HEncodeSW; HInfo])) = [313; 313; 313; 0].
+Proof. vm_compute. reflexivity. Qed.
+
+(* a dref with one (unknown-type) entry and an mp4a entry with one child, concretely through both model decoders *)
+Example ex_dref_box : pfxbox_sr (be4 28 ++ name_dref ++ be4 0 ++ be4 1 ++ cenc (CLeaf [122;122;122;122]%N [1;2;3;4]%N))
+  = Ok (PCnt (mkStsd 0 0 1 [Leaf [122;122;122;122]%N 12]), 28%Z, false)
+  /\ pfxbox_r (be4 28 ++ name_dref ++ be4 0 ++ be4 1 ++ cenc (CLeaf [122;122;122;122]%N [1;2;3;4]%N))
+  = Ok (PCnt (mkStsd 0 0 1 [Leaf [122;122;122;122]%N 12]), 28%N).
+Proof. split; vm_compute; reflexivity. Qed.
+Example ex_ase_box : pfxbox_r (be4 45 ++ [109;112;52;97]%N ++ ase_fixed 1 2 16 48000 ++ cenc (CLeaf name_free [5]%N))
+  = Ok (PAse (mkAse 1 2 16 48000, [Leaf name_free 9]), 45%N).
 Proof. vm_compute. reflexivity. Qed.
